@@ -243,6 +243,27 @@ def fi_run_case(spec):
             exp = float(notional.loc[lab]) * sum(abs(x) for x in w.values())
             if not ref.near(notl[i], exp, S):
                 viols.append({"rule": "notional_follows_setnotional", "expected": {"date": str(lab), "notional": exp}, "observed": notl[i]})
+    # the security-weight report of a fixed-income book: recorded notional over the book's notional
+    # (a hedge instrument carries no notional: weight zero)
+    try:
+        sw = b.security_weights
+        for k in data.columns:
+            if k not in sw.columns:
+                continue
+            node = r[k] if k in r.children else None
+            if node is None:
+                continue
+            nv = [float(x) for x in node.notional_values.values]
+            for i in range(1, len(vals)):
+                if abs(notl[i]) < 1e-12 or i >= len(nv):
+                    continue
+                exp = (0.0 if type(node).__name__ in ("HedgeSecurity", "CouponPayingHedgeSecurity") else nv[i]) / notl[i]
+                got = float(sw[k].iloc[i])
+                if not ref.near(got, exp, 1.0):
+                    viols.append({"rule": "fi_security_weight_report", "expected": {"security": k, "kind": type(node).__name__, "date": str(sw.index[i]), "weight": exp}, "observed": got})
+                    break
+    except Exception as e:
+        viols.append({"rule": "security_weights_raises", "observed": rt.describe(e)})
     # renormalised result: 100 * (1 + cumsum((dV - flows) / v)), first = 100
     for v in (spec.get("norm", 64.0),):
         try:
